@@ -39,6 +39,8 @@ fn powi_classes(f32: bool) -> Vec<(&'static str, Box<dyn Fn(&mut Rng) -> i32>)> 
             }
         })),
         ("random-large", Box::new(move |r| r.sign() as i32 * (r.logu(65.0, cap as f64) as i32))),
+        // exponents up to 2^30 also for f32 types: only usable with bases +-1 (see base_for)
+        ("unit-base-huge", Box::new(|r| r.sign() as i32 * (r.logu(65.0, (1u64 << 30) as f64) as i32 | (r.below(2) as i32)))),
     ]
 }
 
@@ -56,6 +58,8 @@ fn powf_classes() -> Vec<(&'static str, Box<dyn Fn(&mut Rng, bool) -> f64>)> {
         ("near-1", Box::new(|r, f| near(1.0, r, f))),
         ("near-2", Box::new(|r, f| near(2.0, r, f))),
         ("near-3-4", Box::new(|r, f| near(*r.choose(&[3.0, 4.0]), r, f))),
+        // not within rounding of the special exponents, but close: 1, 2, 3 +- 10^-k
+        ("close-to-1-2-3", Box::new(|r, f| *r.choose(&[1.0, 2.0, 2.0, 3.0]) + r.sign() * (10.0f64).powi(-(r.int(2, if f { 6 } else { 13 }) as i32)))),
         ("negative", Box::new(|r, _| -r.logu(0.1, 8.0))),
         ("fraction", Box::new(|r, _| *r.choose(&[0.5, -0.5, 1.0 / 3.0, 1.5, 2.5, -1.0, 0.25]))),
         ("large", Box::new(|r, _| r.sign() * r.logu(50.0, 300.0))),
@@ -138,9 +142,18 @@ fn check_type<T: Jetty>(tname: &str, ctx: &Ctx, shard: usize, nshards: usize, ti
             let n = cgen(&mut rng);
             let shape = T::shape((1 + rng.below(3), 1 + rng.below(2)));
             let b = Basis::new(&shape);
-            let x0 = base_for(&mut rng, n as f64, true, T::IS_F32);
+            let mut x0 = base_for(&mut rng, n as f64, true, T::IS_F32);
             let style = (rep as usize) % STYLES.len();
-            let slots = gen_slots(&mut rng, &b, x0, style, T::IS_F32);
+            let mut slots = gen_slots(&mut rng, &b, x0, style, T::IS_F32);
+            if *cname == "unit-base-huge" {
+                // (+-1)^n: parity of huge exponents; derivative parts kept small so that n^3 * parts^3 stays in range
+                x0 = rng.sign();
+                slots[0] = x0;
+                let lim = if T::IS_F32 { 1e-3 } else { 1.0 };
+                for v in slots.iter_mut().skip(1) {
+                    *v = ((*v) * lim / 9.0) as f32 as f64;
+                }
+            }
             let mask = rng.next_u64();
             let x: T = build_with(&shape, &slots, &mut MaskAbsent::new(mask));
             let (_, pres) = parts_presence(&x, &shape);
@@ -231,7 +244,7 @@ fn check_type<T: Jetty>(tname: &str, ctx: &Ctx, shard: usize, nshards: usize, ti
             let shape = T::shape((1 + rng.below(3), 1 + rng.below(2)));
             let b = Basis::new(&shape);
             let mut x0 = base_for(&mut rng, p, false, T::IS_F32);
-            if cname.starts_with("near") {
+            if cname.starts_with("near") || cname.starts_with("close") {
                 // the crate treats |n-2| < eps as n = 2: keep |ln x| small so the two readings agree within the bound
                 x0 = rng.range(0.3, 3.0);
                 if T::IS_F32 {
@@ -350,7 +363,7 @@ fn main() {
     extra.insert("exponent_classes_observed".into(), json!(classes));
     extra.insert("overflow_checks".into(), json!(cfg!(debug_assertions)));
     extra.insert("K".into(), json!(K));
-    let required = vec![(format!("all exponent classes observed (seen {})", classes.len()), classes.len() >= 21)];
+    let required = vec![(format!("all exponent classes observed (seen {})", classes.len()), classes.len() >= 23)];
     ctx.finish(
         acc,
         "class = (power function, type, exponent class, base sign / exponent sign or part style, presence pattern); every class is non-trivial (operands carry independent non-unit parts). Exponent classes: powi: every n in [-64,64], 0..3, +-2^k and +-(2^k+-1) up to 2^30, the i32 overflow frontiers 1288..1296 and 46338..46346, log-uniform up to 2^30 (2^14 for f32); powf: +-0, 1/2/3/4 and +-3 ulp neighbours, negative, fractions, +-50..300, tiny, random; powd: dual exponents with zero / one / two / negative / fractional / random real part and arbitrary parts. Bases keep |n ln|x|| <= 40 (10 for f32), negative bases for integer exponents.",
